@@ -188,3 +188,10 @@ class Real(Case):
 
 for c in (Generic, Real):
     register(c())
+
+
+# ---- lemmas for the stubs this check relies on (see props.common.Borrowed) ----
+from props.common import Borrowed, REGISTRY
+from props import c01 as _c01
+register(Borrowed(REGISTRY['C01.reverse_byte'], 'C13', 'reverse_byte'))
+register(Borrowed(REGISTRY['C01.leaf'], 'C13', 'hash_leaves'))
